@@ -24,6 +24,7 @@ type genFile struct {
 	Name    string
 	Imports []string
 	Structs bool
+	Prelude string // extra section variables of this file
 }
 
 var genFiles = []genFile{
@@ -34,6 +35,7 @@ var genFiles = []genFile{
 	{Name: "ChainTypes", Structs: true},
 	{Name: "ChainTime", Imports: []string{"ChainTypes"}},
 	{Name: "ChainProofs", Imports: []string{"ChainTypes", "Command"}},
+	{Name: "ChainAllowed", Imports: []string{"ChainTypes", "ChainTime", "ChainProofs"}, Prelude: chainAllowedPrelude},
 }
 
 // The list is ordered: a callee comes before its callers.
@@ -50,6 +52,9 @@ var targets = []target{
 	{Dir: "token/invocation", Recv: "Token", Name: "IsValidAt", Lean: "Inv_IsValidAt", File: "ChainTime"},
 	{Dir: "token/invocation", Recv: "Token", Name: "verifyProofs", Lean: "Inv_verifyProofs", File: "ChainProofs"},
 	{Dir: "token/invocation", Recv: "Token", Name: "verifyTimeBoundAt", Lean: "Inv_verifyTimeBoundAt", File: "ChainTime"},
+	{Dir: "token/invocation", Recv: "Token", Name: "verifyTimeBound", Lean: "Inv_verifyTimeBound", File: "ChainAllowed", Uses: []string{"now"}},
+	{Dir: "token/invocation", Recv: "Token", Name: "executionAllowed", Lean: "Inv_executionAllowed", File: "ChainAllowed",
+		Uses: []string{"now", "ext_loadProofs", "ext_verifyArgs"}},
 }
 
 func findTarget(dir, recv, name string) *target {
@@ -89,6 +94,9 @@ var typeTable = map[string]string{
 	"did.DID":         "D",   // comparable struct, `==` is value equality
 	"cid.Cid":         "C",
 	"command.Command": "Bytes",
+	// opaque to the translated functions: only handed on to externs
+	"delegation.Loader": "L",
+	"*args.Args":        "A",
 }
 
 // structDef is a Go struct whose listed fields are modelled; the Lean structure is generated from the
@@ -163,6 +171,7 @@ type libCall struct {
 
 // libCalls: standard-library functions with their model. `lower` (strings.ToLower) stays a parameter.
 var libCalls = map[string]libCall{
+	"time.Now":          {"now", ty{"Int", "time.Time"}, []string{"now"}}, // the instant of the check is a parameter
 	"strings.HasPrefix": {"(List.isPrefixOf $2 $1)", boolTy, nil},
 	"strings.HasSuffix": {"(List.isSuffixOf $2 $1)", boolTy, nil},
 	"strings.ToLower":   {"(lower $1)", ty{"Bytes", "string"}, []string{"lower"}},
@@ -174,6 +183,18 @@ var methodCalls = map[string]libCall{
 	"time.Time.Before":       {"(decide ($r < $1))", boolTy, nil},
 	"command.Command.String": {"$r", ty{"Bytes", "string"}, nil},
 }
+
+// externMethods: methods of the library that are NOT translated; the generated code takes them as parameters
+// (section variables declared in the file's prelude), so that the theorems about it hold for every behaviour of
+// these functions. loadProofs talks to the caller's Loader; verifyArgs hands the chain's policies to Policy.Match.
+var externMethods = map[string]libCall{
+	"invocation.Token.loadProofs": {"(ext_loadProofs $r $1)", ty{"(List (DlgTok D))", "[]delegation.Token"}, []string{"ext_loadProofs"}},
+	"invocation.Token.verifyArgs": {"(ext_verifyArgs $r $1 $2)", ty{"Unit", "unit"}, []string{"ext_verifyArgs"}},
+}
+
+const chainAllowedPrelude = `variable {L A : Type} (now : Int) (ext_loadProofs : InvTok D C → L → GoM (List (DlgTok D)))
+  (ext_verifyArgs : InvTok D C → List (DlgTok D) → A → GoM Unit)
+`
 
 type constDef struct {
 	code string
